@@ -2,10 +2,8 @@
   Props/C12.lean — LSB0 mode is a pure index mirror of MSB0 mode: slices and single positions.
 
   Every theorem compares an operation at `Mode.lsb0` with THE SAME operation at `Mode.msb0` applied to the
-  reversed operands, reversed back — the property's own wording.  Where the unchanged code deviates
-  (DESIGN §7, known_findings.d/C12.json) the theorem is `…_partial` on the complement of a named decidable region
-  (`negStep`, `invertedAssign`, `setRange`, defined next to the model) and a decided witness shows the
-  deviation inside the region.
+  reversed operands, reversed back — the property's own wording.  All statements are at full strength: every
+  start / stop / step (negative steps, empty and inverted ranges, step 0), every length, every value.
 -/
 import BitstringModel.Model.C12
 import BitstringModel.Proofs.C12
@@ -15,46 +13,46 @@ open BM
 
 /-! ### the index arithmetic of `offset_slice_indices_lsb0` -/
 
-/-- For every non-negative step, every start/stop (None, negative, out of range) and every length, the slice
-    computed by `offset_slice_indices_lsb0` visits exactly the mirror images `n - 1 - i` of the positions the
-    original slice visits, in the opposite order.  (This is the whole content of the mirror law for slices.) -/
-theorem offsetSliceLsb0_visits_mirror (k : Key) (n : Nat) (hpos : negStep k = false) (h0 : k.step ≠ some 0) :
+/-- For every non-zero step (positive, negative, None), every start/stop (None, negative, out of range) and every
+    length, the slice computed by `offset_slice_indices_lsb0` visits exactly the mirror images `n - 1 - i` of the
+    positions the original slice visits, in the opposite order.  (This is the whole content of the mirror law for
+    slices; a zero step raises ValueError, as it does in msb0 mode.) -/
+theorem offsetSliceLsb0_visits_mirror (k : Key) (n : Nat) (h0 : k.step ≠ some 0) :
     ∃ k', offsetSliceLsb0 k n = .ok k' ∧ k'.step = k.step ∧
       Py.rangeList (Py.sliceIndices k'.start k'.stop (k.step.getD 1) n).1
                    (Py.sliceIndices k'.start k'.stop (k.step.getD 1) n).2.1 (k.step.getD 1)
         = ((Py.rangeList (Py.sliceIndices k.start k.stop (k.step.getD 1) n).1
                          (Py.sliceIndices k.start k.stop (k.step.getD 1) n).2.1 (k.step.getD 1)).reverse.map
             fun i => (n : Int) - 1 - i) := by
-  have hst := stepOf_pos k hpos h0
-  refine ⟨_, offsetSliceLsb0_pos k n hpos h0, rfl, ?_⟩
-  have hr := mirror_renorm k n hst
-  have hm := mirror_rangeList k n hst
-  unfold stepOf at hr hm
-  simp only [hr]
-  exact hm
+  have hst : stepOf k ≠ 0 := by
+    unfold stepOf
+    cases h : k.step with
+    | none => simp
+    | some c => rw [h] at h0; simpa using fun hc => h0 (by rw [hc])
+  exact ⟨_, offsetSliceLsb0_eq k n hst, mirKeyOf_step _ _ _ _ _, mirror_rangeList k n hst⟩
+
+/-- An empty slice is mapped to the empty slice AT the mirror image of its start, so that a resizing assignment
+    inserts at the right place. -/
+theorem offsetSliceLsb0_empty_insertion_point (start stop : Option Int) (n : Nat)
+    (hempty : (Py.sliceIndices start stop 1 n).2.1 ≤ (Py.sliceIndices start stop 1 n).1) :
+    offsetSliceLsb0 ⟨start, stop, none⟩ n
+      = .ok ⟨some ((n : Int) - (Py.sliceIndices start stop 1 n).1), some ((n : Int) - (Py.sliceIndices start stop 1 n).1), none⟩ := by
+  have hc : Py.rangeLen (Py.sliceIndices start stop 1 n).1 (Py.sliceIndices start stop 1 n).2.1 1 = 0 := by
+    rw [C01.rangeLen_one]; omega
+  simp [offsetSliceLsb0, hc]
 
 /-! ### `s[a:b:c]`, `del s[a:b:c]`, `s[a:b:c] = v` -/
 
-/- Full statement (fails on the unchanged tree for negative steps, finding `lsb0-negative-step`):
-     ∀ l k, getSliceOp .lsb0 l k = (getSliceOp .msb0 l.reverse k).map List.reverse                        -/
-/-- `s[a:b:c]` under lsb0 is the reversed msb0 slice of the reversed bits, for every start, stop, length and
-    every positive step (step 0 raises in both modes: `slice_step_zero_raises`). -/
-theorem getslice_lsb0_mirror_partial (l : Bits) (k : Key) (hpos : negStep k = false) (h0 : k.step ≠ some 0) :
+/-- `s[a:b:c]` under lsb0 is the reversed msb0 slice of the reversed bits: for every start, stop, step (negative
+    steps and the raising step 0 included) and every length. -/
+theorem getslice_lsb0_mirror (l : Bits) (k : Key) :
     getSliceOp .lsb0 l k = (getSliceOp .msb0 l.reverse k).map List.reverse := by
-  exact getslice_mirror l k hpos h0
+  exact getslice_mirror l k
 
-/-- … and with a negative step the unchanged code does something else. -/
-theorem getslice_lsb0_negStep_witness :
-    negStep ⟨none, some 0, some (-1)⟩ = true ∧
-    getSliceOp .lsb0 [true, false, false] ⟨none, some 0, some (-1)⟩ = .ok [false, false] ∧
-    (getSliceOp .msb0 [true, false, false].reverse ⟨none, some 0, some (-1)⟩).map List.reverse = .ok [false, true] := by
-  decide
-
-/-- A zero step raises in both modes, for all three slice operations (the exception class is not part of the
-    property: ValueError from bitarray under msb0, the failing `assert s.step < 0` of `indices` under lsb0). -/
+/-- A zero step raises ValueError in both modes, for all three slice operations. -/
 theorem slice_step_zero_raises (m : Mode) (l v : Bits) (a b : Option Int) :
-    (∃ e, getSliceOp m l ⟨a, b, some 0⟩ = .error e) ∧ (∃ e, delSliceOp m l ⟨a, b, some 0⟩ = .error e) ∧
-    (∃ e, setSliceBits m l ⟨a, b, some 0⟩ v = .error e) := by
+    getSliceOp m l ⟨a, b, some 0⟩ = .error .value ∧ delSliceOp m l ⟨a, b, some 0⟩ = .error .value ∧
+    setSliceBits m l ⟨a, b, some 0⟩ v = .error .value := by
   exact step_zero_raises m l v a b
 
 /-- The two-argument `BitStore.getslice(start, stop)` used by every internal `_slice`: mirror for all arguments. -/
@@ -62,40 +60,22 @@ theorem getslice2_lsb0_mirror (l : Bits) (a b : Option Int) :
     getslice .lsb0 l a b = (getslice .msb0 l.reverse a b).map List.reverse := by
   exact getslice2_mirror l a b
 
-/- Full statement: ∀ l k, delSliceOp .lsb0 l k = (delSliceOp .msb0 l.reverse k).map List.reverse           -/
-theorem delslice_lsb0_mirror_partial (l : Bits) (k : Key) (hpos : negStep k = false) (h0 : k.step ≠ some 0) :
+/-- `del s[a:b:c]` for every start, stop, step and length. -/
+theorem delslice_lsb0_mirror (l : Bits) (k : Key) :
     delSliceOp .lsb0 l k = (delSliceOp .msb0 l.reverse k).map List.reverse := by
-  exact delslice_mirror l k hpos h0
+  exact delslice_mirror l k
 
-theorem delslice_lsb0_negStep_witness :
-    negStep ⟨none, some 0, some (-1)⟩ = true ∧
-    delSliceOp .lsb0 [true, false, false] ⟨none, some 0, some (-1)⟩ = .ok [true] ∧
-    (delSliceOp .msb0 [true, false, false].reverse ⟨none, some 0, some (-1)⟩).map List.reverse = .ok [false] := by
-  decide
-
-/- Full statement: ∀ l k v, setSliceBits .lsb0 l k v = (setSliceBits .msb0 l.reverse k v.reverse).map List.reverse -/
-/-- Slice assignment (resizing for a step-less / step-1 slice, same-length for an extended one, ValueError
-    otherwise) mirrors for every non-negative step, unless a resizing assignment has its stop before its start. -/
-theorem setslice_lsb0_mirror_partial (l : Bits) (k : Key) (v : Bits)
-    (hpos : negStep k = false) (h0 : k.step ≠ some 0) (hinv : invertedAssign k l.length = false) :
+/-- Slice assignment for every start, stop, step, length and value: resizing for a step-less / step-1 slice
+    (an empty range inserts at the mirror image of its start, also when stop < start), same-length for an
+    extended one (ValueError otherwise, in both modes). -/
+theorem setslice_lsb0_mirror (l : Bits) (k : Key) (v : Bits) :
     setSliceBits .lsb0 l k v = (setSliceBits .msb0 l.reverse k v.reverse).map List.reverse := by
-  exact setslice_mirror l k v hpos h0 hinv
+  exact setslice_mirror l k v
 
-/-- Assignment into an inverted (empty) range lands at the wrong end … -/
-theorem setslice_lsb0_invertedAssign_witness :
-    invertedAssign ⟨some 2, some 1, none⟩ 3 = true ∧
-    setSliceBits .lsb0 [false, false, false] ⟨some 2, some 1, none⟩ [true] = .ok [false, false, true, false] ∧
-    (setSliceBits .msb0 [false, false, false].reverse ⟨some 2, some 1, none⟩ [true].reverse).map List.reverse
-      = .ok [false, true, false, false] := by
-  decide
-
-/-- … and a negative step assigns to the wrong positions. -/
-theorem setslice_lsb0_negStep_witness :
-    negStep ⟨none, some 0, some (-1)⟩ = true ∧
-    setSliceBits .lsb0 [false, false, false] ⟨none, some 0, some (-1)⟩ [true, false] = .ok [false, false, true] ∧
-    (setSliceBits .msb0 [false, false, false].reverse ⟨none, some 0, some (-1)⟩ [true, false].reverse).map List.reverse
-      = .ok [false, true, false] := by
-  decide
+/-- `s[a:b:c] = 0 | 1` at the BitStore level (every visited position receives the bit). -/
+theorem setslicebit_lsb0_mirror (l : Bits) (k : Key) (b : Bool) :
+    setitemSliceBit .lsb0 l k b = (setitemSliceBit .msb0 l.reverse k b).map List.reverse := by
+  exact setbit_mirror l k b
 
 /-! ### single positions: `s[i]`, `s[i] = b`, `del s[i]`, `invert`, `set`, `all`, `any` -/
 
@@ -136,7 +116,7 @@ theorem setitembits_lsb0_mirror (l : Bits) (i : Int) (v : Bits) :
   by_cases hq : q < 0 ∨ (l.length : Int) ≤ q
   · simp only [hq, if_true]; rfl
   · simp only [hq, if_false]
-    exact setslice_mirror l _ v rfl (by simp) (invertedAssign_false_of_le q (q + 1) l.length (by omega) (by omega))
+    exact setslice_mirror l _ v
 
 theorem delitem_lsb0_mirror (l : Bits) (i : Int) :
     delItem .lsb0 l i = (delItem .msb0 l.reverse i).map List.reverse := by
@@ -156,10 +136,9 @@ theorem invert_lsb0_mirror (l : Bits) (P : PosSpec) :
     · rfl
     · exact invertMany_mirror _ l
 
-/- Full statement: ∀ l b P, setOp .lsb0 l b P = (setOp .msb0 l.reverse b P).map List.reverse               -/
-/-- `set(value, pos)` for all bits, one position, a list of positions, and every range that is not written as a
-    single slice (empty, or with an element that is negative / out of range: those are set one by one). -/
-theorem set_lsb0_mirror_partial (l : Bits) (b : Bool) (P : PosSpec) (h : setRange P l.length = false) :
+/-- `set(value, pos)` for all bits, one position, a list of positions and a range (written as one slice when its
+    first and last element are valid non-negative indices, element by element otherwise). -/
+theorem set_lsb0_mirror (l : Bits) (b : Bool) (P : PosSpec) :
     setOp .lsb0 l b P = (setOp .msb0 l.reverse b P).map List.reverse := by
   cases P with
   | all =>
@@ -169,14 +148,7 @@ theorem set_lsb0_mirror_partial (l : Bits) (b : Bool) (P : PosSpec) (h : setRang
     · simp [Except.map]
   | one i => exact setMany_mirror b [i] l
   | many ps => exact setMany_mirror b ps l
-  | range a b' c => exact setOp_range_mirror l b a b' c h
-
-/-- `set(1, range(0, 2))` works under msb0 and raises (AttributeError, on `int._bitarray`) under lsb0. -/
-theorem set_lsb0_setRange_witness :
-    setRange (.range 0 2 1) 3 = true ∧
-    setOp .lsb0 [false, false, false] true (.range 0 2 1) = .error (.internal "AttributeError") ∧
-    (setOp .msb0 [false, false, false].reverse true (.range 0 2 1)).map List.reverse = .ok [false, true, true] := by
-  decide
+  | range a b' c => exact setOp_range_mirror l b a b' c
 
 theorem all_lsb0_mirror (l : Bits) (b : Bool) (P : PosSpec) : allOp .lsb0 l b P = allOp .msb0 l.reverse b P := by
   unfold allOp
@@ -196,13 +168,16 @@ theorem any_lsb0_mirror (l : Bits) (b : Bool) (P : PosSpec) : anyOp .lsb0 l b P 
     | none => simp [List.any_reverse]
     | some ps => exact anyAt_mirror b ps l
 
-/-! ### non-vacuity: the hypotheses are satisfiable by non-trivial values, and the claims are not about the empty list -/
-example : negStep ⟨some (-5), some 7, some 2⟩ = false ∧ invertedAssign ⟨some 1, some 4, none⟩ 6 = false := by decide
+/-! ### non-vacuity: the claims are about non-trivial values (negative steps, inverted ranges, ranges written as a slice) -/
 example : getSliceOp .lsb0 [true, true, false, true, false, false] ⟨some (-5), some 7, some 2⟩ = .ok [true, false, false] := by decide
+example : getSliceOp .lsb0 [true, false, false] ⟨none, some 0, some (-1)⟩ = .ok [false, true] := by decide
 example : setSliceBits .lsb0 [true, true, false, true, false, false] ⟨some 1, some 4, none⟩ [true] = .ok [true, true, true, false] := by decide
+example : setSliceBits .lsb0 [false, false, false] ⟨some 2, some 1, none⟩ [true] = .ok [false, true, false, false] := by decide
 example : delSliceOp .lsb0 [true, true, false, true, false, false] ⟨some 0, none, some 3⟩ = .ok [true, true, true, false] := by decide
+example : delSliceOp .lsb0 [true, false, false] ⟨none, some 0, some (-1)⟩ = .ok [false] := by decide
 example : getItem .lsb0 [true, false, false] 2 = .ok true ∧ getItem .lsb0 [true, false, false] (-3) = .ok false := by decide
-example : setRange (.many [0, -1]) 3 = false ∧ setOp .lsb0 [false, false, false] true (.many [0, -1]) = .ok [true, false, true] := by decide
-example : setRange (.range (-1) (-4) (-2)) 3 = false ∧ setOp .lsb0 [false, false, false] true (.range (-1) (-4) (-2)) = .ok [true, false, true] := by decide
+example : setOp .lsb0 [false, false, false] true (.many [0, -1]) = .ok [true, false, true] := by decide
+example : setOp .lsb0 [false, false, false] true (.range 0 2 1) = .ok [false, true, true] := by decide
+example : setOp .lsb0 [false, false, false] true (.range (-1) (-4) (-2)) = .ok [true, false, true] := by decide
 
 end BM.C12
